@@ -303,7 +303,7 @@ PROPS = {
         engine="cluster-simulator",
     ),
     "C20": dict(
-        lean_modules=['Swim.Model.Merge', 'Swim.Props.C20', 'Swim.Model.Lifecycle', "Swim.Props.GenTie.Lists", "Swim.Model.Acks", "Swim.Props.C19"],
+        lean_modules=['Swim.Model.Merge', 'Swim.Props.C20', 'Swim.Model.Lifecycle', "Swim.Props.GenTie.Lists", "Swim.Model.Acks", "Swim.Props.C19", "Swim.Model.Select", "Swim.Props.Select"],
         tests="^TestC20$",
         timeout_quick=400,
         shards_quick=4,
